@@ -18,6 +18,10 @@ PRE = {"none": [],
                                    {"op": "setPrefs", "who": "A", "n": 0, "prefs": ["vp8", "rtx-vp8", "h264", "rtx-h264"]}],
        "video-prefs-rtxfirst": [{"op": "addTransceiver", "who": "A", "kind": "video", "dir": "recvonly"},
                                 {"op": "setPrefs", "who": "A", "n": 0, "prefs": ["rtx-h264", "h264", "vp9", "rtx-vp9"]}],
+       "video-prefs-nopt": [{"op": "addTransceiver", "who": "A", "kind": "video", "dir": "recvonly"},
+                            {"op": "setPrefs", "who": "A", "n": 0, "prefs": ["h264-nopt", "vp8-nopt"]}],
+       "audio-prefs-nopt": [{"op": "addTransceiver", "who": "A", "kind": "audio", "dir": "sendrecv"},
+                            {"op": "setPrefs", "who": "A", "n": 0, "prefs": ["opus-nopt"]}],
        "two-video": [{"op": "addTransceiver", "who": "A", "kind": "video", "dir": "sendrecv"},
                      {"op": "addTransceiver", "who": "A", "kind": "video", "dir": "sendrecv"}]}
 
